@@ -13,8 +13,10 @@
 (*    off     the offsets (rationals, aligned with keys),                  *)
 (*    tref    the reference temperature used for the T_ref/T scaling,      *)
 (*    fitted  the list `refs` as it was at the last fit.                   *)
-(* One action per public call: Init (the constructor fits), AppendRef,     *)
-(* ExtendRefs, InsertRef, PopRef, Fit.                                     *)
+(* One action per public call: InitFit (the constructor fits), InitGiven   *)
+(* (offset= passed: nothing fitted), AppendRef, ExtendRefs, InsertRef,     *)
+(* PopRef, RemoveRef, SetRef (__setitem__), ClearOffset, Reload (to_dict / *)
+(* from_dict), Fit.                                                        *)
 (*                                                                         *)
 (* NAMED DEVIATION (what the code does): append/extend/insert/pop only edit *)
 (* the list; offset and T_ref are NOT refitted until fit_HoRT_offset() is  *)
@@ -56,7 +58,9 @@ CONSTANTS ND,        \* number of descriptors the references can contain
           Temps,     \* temperatures tried by TIndependent
           Record,    \* TRUE: h carries the full record of every step (replay); FALSE: the action only
           Algo,      \* "lstsq" (the code) | "squarefast" | "dftcache" (named variants, expected to be rejected)
-          Garbage    \* size of the offsets an undetected singular square solve returns
+          Garbage,   \* size of the offsets an undetected singular square solve returns
+          Acts,      \* which of the further list/offset calls are enabled: "remove", "setitem", "clear", "reload"
+          GivenSets  \* [keys, off, tref] records a References object can be constructed with (offset= given: no fit)
 
 VARIABLES refs, keys, off, tref, fitted, cache, h
 vars == <<refs, keys, off, tref, fitted, cache, h>>
@@ -129,7 +133,7 @@ DoFit(rs) == LET f == FitAlgo(rs, cache) IN
              /\ cache' = NewCache(rs, cache)
 After(rs) == IF Variant = "auto" THEN DoFit(rs) ELSE UNCHANGED <<keys, off, tref, fitted, cache>>
 
-Init == /\ refs \in InitSets
+InitFit == /\ refs \in InitSets
         /\ LET f == FitAlgo(refs, <<>>) IN keys = f.keys /\ off = f.off /\ tref = f.tref
         /\ fitted = refs
         /\ cache = NewCache(refs, <<>>)
@@ -138,6 +142,16 @@ Init == /\ refs \in InitSets
                   cur |-> Snap(refs, refs, keys, off, tref),
                   fresh |-> Snap(refs, refs, keys, off, tref),
                   isfresh |-> TRUE, det |-> RowsIndependent(refs, keys), samet |-> SameT(refs)]>>
+\* References(offset=..., T_ref=..., references=...): the offsets are taken as given, nothing is fitted
+InitGiven == /\ refs \in InitSets
+             /\ \E g \in GivenSets : keys = g.keys /\ off = g.off /\ tref = g.tref
+             /\ fitted = <<>> /\ cache = <<>>
+             /\ h = <<IF ~Record THEN [act |-> "given"] ELSE
+                      [act |-> "given", arg |-> refs, n |-> Len(refs),
+                       cur |-> Snap(refs, <<>>, keys, off, tref),
+                       fresh |-> LET f == FitOf(refs) IN Snap(refs, refs, f.keys, f.off, f.tref),
+                       isfresh |-> FALSE, det |-> RowsIndependent(refs, KeySeq(refs)), samet |-> SameT(refs)]>>
+Init == InitFit \/ InitGiven
 AppendRef(r) == /\ Len(refs) < MaxRefs /\ Len(h) <= MaxOps
                 /\ refs' = Append(refs, r)
                 /\ After(refs')                    \* explicit: offset NOT refitted (as in the code)
@@ -158,11 +172,34 @@ Fit == /\ Len(h) <= MaxOps /\ h[Len(h)].act # "fit"
        /\ UNCHANGED refs
        /\ DoFit(refs)
        /\ h' = Append(h, Rec("fit", <<>>))
+\* further calls of the public API (all of them only edit the list / the dictionary; none refits)
+RemoveRef(p) == /\ "remove" \in Acts /\ Len(refs) >= 2 /\ p \in 1..Len(refs) /\ Len(h) <= MaxOps
+                /\ refs' = SubSeq(refs, 1, p - 1) \o SubSeq(refs, p + 1, Len(refs))
+                /\ After(refs')
+                /\ h' = Append(h, Rec("remove", <<p - 1>>))
+SetRef(p, r) == /\ "setitem" \in Acts /\ p \in 1..Len(refs) /\ refs[p] # r /\ Len(h) <= MaxOps
+                /\ refs' = [refs EXCEPT ![p] = r]
+                /\ After(refs')
+                /\ h' = Append(h, Rec("setitem", <<r, p - 1>>))
+\* clear_offset(): the dictionary is emptied (no descriptor has an offset: nothing is added to any
+\* species) until the next fit; T_ref is kept
+ClearOffset == /\ "clear" \in Acts /\ Len(keys) > 0 /\ Len(h) <= MaxOps
+               /\ UNCHANGED <<refs, tref, cache>>
+               /\ keys' = <<>> /\ off' = <<>> /\ fitted' = <<>>
+               /\ h' = Append(h, Rec("clear", <<>>))
+\* to_dict / from_dict (or JSON): the reloaded object holds the same references, offsets and T_ref; it
+\* is not refitted
+Reload == /\ "reload" \in Acts /\ Len(h) <= MaxOps /\ h[Len(h)].act # "reload"
+          /\ UNCHANGED <<refs, keys, off, tref, fitted, cache>>
+          /\ h' = Append(h, Rec("reload", <<>>))
 Next == \/ \E r \in RefKinds : AppendRef(r)
         \/ \E rs \in ExtSets : ExtendRefs(rs)
         \/ \E p \in 1..MaxRefs : PopRef(p)
         \/ \E p \in 0..(MaxRefs - 1), r \in InsKinds : InsertRef(p, r)
         \/ Fit
+        \/ \E p \in 1..MaxRefs : RemoveRef(p)
+        \/ \E p \in 1..MaxRefs, r \in InsKinds : SetRef(p, r)
+        \/ ClearOffset \/ Reload
 Spec == Init /\ [][Next]_vars
 
 \* ---- the property (required in every post-Fit state)
@@ -213,7 +250,7 @@ ReproducesAtTref ==
          /\ SameT(refs) => RZero(err)
 
 \* what the code does between an edit and the next fit
-StaleAfterEdit == [][h'[Len(h')].act # "fit" => UNCHANGED <<keys, off, tref, fitted, cache>>]_vars
+StaleAfterEdit == [][h'[Len(h')].act \notin {"fit", "clear"} => UNCHANGED <<keys, off, tref, fitted, cache>>]_vars
 \* NOT a property of the code (expected to be rejected under Variant = "explicit")
 AlwaysFresh == Fresh
 
